@@ -324,6 +324,26 @@ def h_store_switch_times_one(I):
             ('its neighbours are exactly eps away', AND(OR(*[EQ(s, ta - eps, tol=1e-15) for s in st]), OR(*[EQ(s, ta + eps, tol=1e-15) for s in st])) if st else False)]
 
 
+def h_timeseries_exact(I):
+    """real TimeSeries.apply_exact on two devices with different tables: at a time stamp each device whose table has that stamp
+    (and only it) writes its row's values to its target; a device without the stamp does not stop the others"""
+    import pandas as pd
+    import andes.models.timeseries as TSM
+    tables = {'TS0': pd.DataFrame({'t': [1.0, 2.0], 'p': [10.0, 20.0]}), 'TS1': pd.DataFrame({'t': [0.5, 1.0, 1.5], 'p': [5.0, 6.0, 7.0]}),
+              'TS2': pd.DataFrame({'t': [1.5, 2.0], 'p': [70.0, 80.0]})}
+    out = []
+    for order in (('TS0', 'TS1', 'TS2'), ('TS2', 'TS0', 'TS1')):
+        for t in (0.5, 1.0, 1.5, 2.0, 0.75):
+            written = []
+            target = NS(set=lambda dest, dev, attr, value: written.append((dev, dest, float(value))))
+            fake = NS(n=3, u=NS(v=[1, 1, 1]), SW=NS(s1=[1, 1, 1]), idx=NS(v=list(order)), _data=tables, tkey=NS(v=['t'] * 3), fields=NS(v=[['p']] * 3),
+                      dests=NS(v=[['Ppf']] * 3), model=NS(v=['PQ'] * 3), dev=NS(v=['D_' + k for k in order]), system=NS(PQ=target), config=NS(silent=1))
+            TSM.TimeSeriesModel.apply_exact(fake, np.float64(t))
+            want = sorted(('D_' + k, 'Ppf', float(df.loc[df['t'] == t, 'p'].values[0])) for k, df in tables.items() if t in df['t'].values)
+            out.append((f'time series devices listed as {order}: at t = {t} exactly the devices whose table has that stamp write their row', sorted(written) == want))
+    return out
+
+
 # ------------------------------------------------------------------------ callbacks on a real System
 _SYS = {}
 
@@ -446,6 +466,8 @@ def job(spec):
         return H.run('TDS.init_resume first calc_h', h_base_case(resume=True), timeout_ms=20000, region=region_of)
     if kind == 'exit':
         return H.run('TDS.run loop exit + epilogue', h_exit(), region=region_of)
+    if kind == 'tseries':
+        return H.run('TimeSeries.apply_exact on three tables', h_timeseries_exact, region=lambda v, c: c.split(': ')[-1])
     if kind == 'exitb':
         return H.run('TDS.run epilogue (busted)', h_exit_busted(), region=region_of)
     if kind == 'sst':
@@ -489,7 +511,7 @@ def main():
               'store_switch_times: distinct event times are more than 3*eps apart')
     ck.out('TimeSeries.apply_exact', 'quasi-real-time sleeping', 'events refreshed during the run (refresh_event=1)',
            'csv replay mode')
-    jobs = [('iter', (k, cv, fx)) for k in range(4) for cv in (True, False) for fx in (True, False)] + [('base', 0), ('resume', 0), ('exit', 0), ('exitb', 0), ('sst', 0), ('sst', 'one'), ('toggle', 0), ('fault', 0)] \
+    jobs = [('iter', (k, cv, fx)) for k in range(4) for cv in (True, False) for fx in (True, False)] + [('base', 0), ('resume', 0), ('exit', 0), ('exitb', 0), ('sst', 0), ('sst', 'one'), ('tseries', 0), ('toggle', 0), ('fault', 0)] \
         + [('alter', m) for m in ('+', '-', '*', '/', '=')]
     res = core.pmap(job, jobs)
     ck.merge(res)
